@@ -2,14 +2,23 @@
 
 Ops (one line each, see harness/DEV.md):
   bucket <axis> <v1,v2,...>          axis.compute_from_times / compute_from_leadtimes on the values
+  genbucket leadtimeday|timeofday <v1,...>
+                                     the same two functions against their machine translation (Gen/Axis.lean)
   conv <fn> <a1,a2,...>              util date conversion <fn> (or a round trip rt_*) on every argument
-  slices <axis> <times> <leads> <locs> <mask> <how>
-                                     build a verif.data.Data (in memory or through a text file), ask
-                                     get_scores(..., axis, i) for every slice i; reply = labels|slice;slice…
-                                     where a slice lists the flat indices (t*L*S + l*S + s) of its cases
+  slices <axis> <times> <leads> <locs> <mask> <how> [<sub>]
+                                     build a verif.data.Data (in memory or through a text file; with the user
+                                     subset <sub> = d=YYYYMMDD,..;tod=h,..;t=unixtime,.. of the init times passed as
+                                     dates= / tods= / times=), ask get_scores(..., axis, i) for every slice i;
+                                     reply = labels|slice;slice… where a slice lists the flat indices
+                                     (t*L*S + l*S + s, in the dataset BEFORE the subset) of its cases
+  slicescli <axis> count|mae <times> <leads> <locs> <mask> text|textdate <sub> <mask2>
+                                     write one (mask2 = -) or two text files and run the real command line
+                                     verif f [g] -m obs -agg count | -m mae  -x <axis> -type csv [-d ..] [-tod ..] [-t ..];
+                                     reply = rows|score column of f[|score column of g]
 The oracle (`judge`) never uses datetime/calendar: it has its own textbook calendar (year lengths summed
 from 1900, month lengths by the rhyme), and for slices it calls the real code again (pooled request,
-Mae/Bias per slice) and checks the partition / count / weighted-mean identities.
+Mae/Bias per slice) and checks the partition / count / weighted-mean identities; for the command line it
+recomputes every row in exact arithmetic from the definition of the files and runs `-x no` for the pooled value.
 """
 import bisect
 import math
@@ -22,31 +31,47 @@ import numpy as np
 from common import xr, from_xr, num_close, tokens_close
 
 ID = "C11"
-TARGETS = ["Proofs.C11", "Proofs.C11Calendar"]
-GEN_PREFIXES = []
+TARGETS = ["Proofs.C11", "Proofs.C11Calendar", "Proofs.C11Subset", "Proofs.GenEq.Axis"]
+GEN_PREFIXES = ["axis."]
+# Proofs.GenEq.Axis only ties the hand-written bucket functions to the source; the C11 theorems are about the model,
+# which is also tied by the axis.bucket correspondence (see check.py, tie-only obligations)
+TIE_ONLY = {"prefix": "axis.", "modules": ["Proofs.GenEq.Axis"], "gen_op_heads": ["genbucket"]}
 THEOREMS = {
     "Proofs.C11": ["VerifModel.C11." + t for t in [
         "C11_partition", "C11_exactly_one", "C11_counts", "C11_weighted_sum", "C11_weighted_mean",
         "C11_weighted_mean_nonempty", "C11_partition_unique", "C11_model_partition",
         "C11_model_counts", "C11_model_weighted_sum", "C11_location_axes", "C11_pooled_axes",
         "civil_textbook", "textbookDate_epoch", "C11_calendar", "C11_week", "C11_dayofyear",
-        "C11_timeofday", "C11_leadtimeday", "C11_conversions", "C11_get_date"]],
+        "C11_timeofday", "C11_leadtimeday", "C11_leadtimeday_vs_floor", "C11_conversions", "C11_get_date"]],
     "Proofs.C11Calendar": ["VerifModel.C11Cal." + t for t in [
         "walk_ok", "months_ok", "day_facts"]],
+    "Proofs.C11Subset": ["VerifModel.C11." + t for t in [
+        "C11_subset_calendar", "C11_subset_other", "C11_subset_time", "C11_subset_partition",
+        "C11_subset_tods", "C11_subset_times", "C11_subset_dates"]],
+    "Proofs.GenEq.Axis": ["VerifModel.GenEq.Axis." + t for t in [
+        "pyInt_eq", "leadtimeday_eq", "timeofday_eq"]],
 }
 TRUSTED_BASE = [
     "Lean 4.33 kernel; axioms propext, Classical.choice, Quot.sound only",
-    "Spec/Calendar.lean (leap rule, month lengths, 'the day after', 1970-01-01 is a Thursday) and "
-    "Spec/Slicing.lean (a slice = the cases whose bucket equals the label): my reading of the property",
+    "Spec/Calendar.lean (leap rule, month lengths, 'the day after', 1970-01-01 is a Thursday), "
+    "Spec/Slicing.lean (a slice = the cases whose bucket equals the label) and Spec/LeadTime.lean (the whole number "
+    "of 24 h periods in a lead time = the integer part of l/24, counted with the sign of l): my reading of the property",
     "Model/Axis.lean is hand-written (calendar code is outside the translator's language); it is tied to "
     "axis.py / util.py / data.py by the correspondence streams, exhaustive over every day 1900-2100 in the "
-    "thorough tier",
+    "thorough tier.  Leadtimeday and Timeofday are in addition machine-translated on every run (harness/translate.py "
+    "gen_axis -> Gen/Axis.lean: element-wise reading of the list comprehension / array expression over exact "
+    "numbers, `/` true division, `%` floor-mod by a positive literal, int() = truncation toward zero) and proved equal "
+    "to the model (Proofs/GenEq/Axis.lean); the translation is executed against the real functions (stream axis.gen)",
     "Python datetime / calendar.timegm / matplotlib.dates (date2num, num2date) are exercised through the "
     "real functions, not modelled individually",
     "np.unique, np.where and fancy indexing are modelled (sorted de-duplication, index lists, row-major "
-    "flattening) and tied by the axis.slices stream",
-    "IEEE rounding: timeofday and unixtime_to_datenum are compared with rtol 1e-9, lead times lie on a "
-    "decimal grid where int(l/24) is not affected by rounding",
+    "flattening) and tied by the axis.slices stream; the user subset of the init times is modelled as a filter of "
+    "the time dimension (Dims.restrict; _get_common_indices itself is C01-C03's subject)",
+    "the command line (stream axis.cli): argument parsing, text input, the Mae / Obs metrics, the count aggregator "
+    "and the csv writer run for real and are not modelled here (C13, C09, C05, C15, C12); the model computes the "
+    "rows, counts and mean absolute errors from Model/Axis `slices`; descriptor columns of the csv are not compared",
+    "IEEE rounding: timeofday and unixtime_to_datenum are compared with rtol 1e-9, csv scores with rtol 1e-5 (the csv "
+    "shows 6 significant digits), lead times lie on a decimal grid where int(l/24) is not affected by rounding",
 ]
 ASSUMPTIONS = [
     "initialisation times are whole seconds (Data casts times to int) between 1900-01-01 and 2100-12-31 "
@@ -55,41 +80,64 @@ ASSUMPTIONS = [
     "year, so that a calendar day has the same bucket in every year); it equals the ordinal within the "
     "date's own year in leap years and in Jan/Feb, and is one larger from March on in common years "
     "(theorem C11_dayofyear)",
-    "lead times are non-negative (int() truncates towards zero; for l >= 0 this is the whole number of "
-    "24 h periods)",
+    "lead-time day for a negative lead time: 'the whole number of 24 h periods' is read as the integer part of "
+    "l/24 (the periods are counted backwards: -0.5 h -> 0, -24.5 h -> -1), which is what int() computes; the "
+    "bucket 0 therefore holds -24 h < l < 24 h.  Under the other possible reading (the day in which the valid time "
+    "falls, floor(l/24)) -0.5 h would be in bucket -1; C11_leadtimeday_vs_floor states the difference",
+    "-tod h keeps the initialisation times at exactly h:00:00 (real-valued comparison of the time of day, as "
+    "C03 assumes); -d keeps the init times whose UTC civil date is listed (theorem C11_subset_dates, 1900-2100, "
+    "floor division as in /repo since d1f322f)",
     "datenum_to_date is claimed for date numbers that are not within a microsecond below a whole number "
     "(matplotlib rounds to microseconds)",
     "an empty slice (all its cases invalid) is returned by get_scores as [nan]: count 0, weight 0",
 ]
 RULE = ("axis.bucket: every listed day x hours {0,1,6,12,23} (+23:59:59 on boundary days) for the 8 time "
-        "axes, batched 100 instants per op; lead times {0,0.5,1,23,24,25,47.9,48,240} + random grid values; "
+        "axes, batched 100 instants per op; lead times {0,0.5,1,23,24,25,47.9,48,240,-0.5,-24,-24.5,-47.9} + random "
+        "grid values of both signs (multiples of 24 h, 0.1 h before / after one); "
         "conv: the 6 util functions + 4 round trips on the same days; thorough = every day 1900-01-01…"
         "2100-12-31, quick = every 7th day + first/last day of every month + 28 Feb/29 Feb/1 Mar. "
-        "axis.slices: seeded random datasets (1-6 init times around year/month/leap-day/week boundaries at "
-        "any hour, 1-4 lead times, 1-3 locations with possibly equal lat/lon/elev, random missing cases, "
-        "sometimes a whole slice missing; built in memory or through a real text file, input order "
-        "optionally reversed) x all 19 axes. An op is non-trivial if its reply has >= 2 distinct buckets "
-        "/ >= 2 slices.")
+        "axis.gen: the machine-translated Leadtimeday / Timeofday on the same lead times and on random instants. "
+        "axis.slices: seeded random datasets (1-6 init times around year/month/leap-day/week boundaries 1968-2100 "
+        "(a tenth before the unix epoch) at any hour, 1-4 lead times of either sign, 1-3 locations with possibly equal lat/lon/elev, random missing "
+        "cases, sometimes a whole slice missing; built in memory or through a real text file, input order "
+        "optionally reversed; a fifth of the datasets with a user subset of the init times: dates= / tods= / times= "
+        "alone or combined, chosen from the dataset's own days / hours / times plus values that match nothing, "
+        "sometimes removing every init time) x all 19 axes. "
+        "Six fixed subset ops on init times on both sides of the unix epoch (1969-12-30 23:00 … 1970-01-02 06:00; -d on "
+        "either side, -tod, -t) x 19 axes, and through the command line for time / day / timeofday / year. "
+        "axis.cli: 24 (thorough 240) such datasets written as one or two text files (date+hour or unixtime column, "
+        "the second file with its own missing forecasts, a third with -d / -tod / -t) and run through the real "
+        "command line with -m obs -agg count and -m mae, -type csv, for the 8 calendar axes and (quick: half of) "
+        "the other 8 data axes. An op is non-trivial if its reply has >= 2 distinct buckets / >= 2 slices / rows.")
 EXHAUSTIVE = {"quick": False, "thorough": True}
 EXHAUSTIVE_NOTE = ("thorough: the axis.bucket and conv streams enumerate every day 1900-01-01…2100-12-31 "
-                   "(73 414 days) x 5 hours for all time-derived axes and all conversions; the slices stream "
-                   "is seeded-random in both tiers")
+                   "(73 414 days) x 5 hours for all time-derived axes and all conversions; the slices and cli "
+                   "streams are seeded-random in both tiers")
 LEVEL_TEXT = ("Lean theorems: for any bucket function and any list of cases the slices of the distinct "
               "bucket values are a permutation of the pooled valid cases (induction over lists), counts add "
               "up, pooled mean = count-weighted mean of slice means (over Q); the model of "
-              "_apply_axis/get_axis_values satisfies this for all 19 axes; calendar buckets are the first "
-              "instants of the textbook civil year/month/Monday-week/day for every second 1970-2100 and the "
+              "_apply_axis/get_axis_values satisfies this for all 19 axes; for any subset of the initialisation "
+              "times (-d / -tod / -t) and every axis the slices of the subset dataset are the slices of the full "
+              "dataset restricted to the surviving cases, the calendar labels are exactly the buckets that still have "
+              "a surviving init time, and the slices partition the surviving valid cases; calendar buckets are the "
+              "first instants of the textbook civil year/month/Monday-week/day for every second 1970-2100; the "
+              "lead-time day of every lead time of either sign is the integer part of l/24; the "
               "date/unixtime/datenum conversions are mutually inverse for every day 1900-2100 (kernel "
               "evaluation over all 73 414 days, lifted by arithmetic). The model is tied to /repo by an "
-              "exhaustive differential correspondence over every day and a random dataset stream through "
-              "the real Data class.")
-TECHNIQUE = "Lean 4 proof over a hand-written model; exhaustive differential correspondence + metamorphic oracle on the real code"
+              "exhaustive differential correspondence over every day, a random dataset stream through "
+              "the real Data class (with user subsets), a stream through the real command line (csv rows) and, for "
+              "Leadtimeday / Timeofday, by machine translation of the source on every run.")
+TECHNIQUE = ("Lean 4 proof over a hand-written model (two bucket functions machine-translated from the source); "
+             "exhaustive differential correspondence + metamorphic / exact-recomputation oracle on the real code "
+             "and the real command line")
 
 TIME_AXES = ["year", "month", "week", "day", "timeofday", "dayofyear", "dayofmonth", "monthofyear"]
 ALL_AXES = ["time", "leadtime", "leadtimeday", "location", "lat", "lon", "elev", "no", "year", "month",
             "week", "timeofday", "dayofyear", "day", "dayofmonth", "monthofyear", "obs", "fcst", "threshold"]
 HOURS = [0, 1, 6, 12, 23]
-LEADS = [0.0, 0.5, 1.0, 23.0, 24.0, 25.0, 47.9, 48.0, 240.0]
+LEADS = [0.0, 0.5, 1.0, 23.0, 24.0, 25.0, 47.9, 48.0, 240.0, -0.5, -24.0, -24.5, -47.9]
+CLI_AXES = ["time", "leadtime", "leadtimeday", "location", "lat", "lon", "elev", "no", "year", "month",
+            "week", "timeofday", "dayofyear", "day", "dayofmonth", "monthofyear"]
 CONV_DATE = ["date_to_unixtime", "date_to_datenum", "rt_date_unix", "rt_date_datenum"]
 CONV_UNIX = ["unixtime_to_date", "unixtime_to_datenum", "rt_unix_date", "rt_unix_datenum"]
 BATCH = 100
@@ -267,15 +315,43 @@ def gen_ops(tier, rng):
     yield "axis.bucket", "bucket leadtime %s" % ",".join(xr(l) for l in LEADS)
     for _ in range(20 if tier == "quick" else 200):
         ls = [rng.choice([rng.randint(0, 400), rng.randint(0, 4000) / 10.0, 24.0 * rng.randint(0, 20),
-                          24.0 * rng.randint(1, 20) - 0.1, rng.randint(0, 960) / 4.0])
+                          24.0 * rng.randint(1, 20) - 0.1, rng.randint(0, 960) / 4.0,
+                          -rng.randint(0, 960) / 4.0, -24.0 * rng.randint(0, 20), 0.1 - 24.0 * rng.randint(1, 20),
+                          -0.1 - 24.0 * rng.randint(0, 20)])
               for _ in range(20)]
         yield "axis.bucket.random", "bucket leadtimeday %s" % ",".join(xr(l) for l in ls)
+        yield "axis.gen", "genbucket leadtimeday %s" % ",".join(xr(l) for l in ls)
+    # the machine-translated Leadtimeday / Timeofday (Gen/Axis.lean) executed against the real functions
+    yield "axis.gen", "genbucket leadtimeday %s" % ",".join(xr(l) for l in LEADS)
+    for _ in range(10 if tier == "quick" else 100):
+        ts = [86400 * rng.randint(K_LO, K_HI) + rng.choice([0, 1, 3599, 3600, 21600, 43200, 86399,
+                                                            rng.randint(0, 86399)]) for _ in range(BATCH)]
+        yield "axis.gen", "genbucket timeofday %s" % ",".join(str(t) for t in ts)
     # ---- (b) slices
+    # fixed: init times on both sides of the unix epoch (1969-12-30 23:00, 1969-12-31 23:00, 1970-01-01 00:00 and
+    # 01:00, 1970-01-02 06:00) with -d on either side, -tod and -t
+    fixed = "-90000,-3600,0,3600,108000 0,24 7:60:10:5;9:61:10:0 11111011111111011111 %s"
+    subs = ["d=19691231", "d=19700101", "d=19691230,19700102", "tod=23", "d=19691231;tod=23", "t=-3600,0"]
+    for sub in subs:
+        for ax in ALL_AXES:
+            yield "axis.slices", "slices %s %s %s" % (ax, fixed % rng.choice(["mem", "memrev", "text"]), sub)
+        for ax in ("time", "day", "timeofday", "year"):
+            for metric in ("count", "mae"):
+                yield "axis.cli", "slicescli %s %s %s %s -" % (ax, metric, fixed % "text", sub)
     n = 60 if tier == "quick" else 600
     for i in range(n):
         ds = _random_dataset(rng, i)
         for ax in ALL_AXES:
             yield "axis.slices", "slices %s %s" % (ax, ds)
+    # ---- (c) the same through the command line: verif f [g] -m obs -agg count | -m mae  -x <axis> -type csv
+    n = 24 if tier == "quick" else 240
+    for i in range(n):
+        ds = _random_dataset(rng, i, cli=True)
+        for j, ax in enumerate(CLI_AXES):
+            if tier == "quick" and ax not in TIME_AXES and (i + j) % 2:
+                continue          # quick: every calendar axis, half of the others, per dataset
+            for metric in ("count", "mae"):
+                yield "axis.cli", "slicescli %s %s %s" % (ax, metric, ds)
 
 
 _ANCHORS = None
@@ -292,18 +368,53 @@ def _anchors():
             a.append(epochday(y, 2, 28))
             for m in (4, 7, 10):
                 a.append(epochday(y, m, 1))
-        _ANCHORS = [k for k in a if 0 <= k <= K_HI - 40]
+        for md in ((1, 1), (2, 28), (3, 1), (7, 1), (10, 1), (12, 31)):       # before the unix epoch: negative unix times
+            a.append(epochday(1969, *md))
+        a.append(epochday(1968, 2, 29))
+        a.append(epochday(1968, 12, 31))
+        _ANCHORS = [k for k in a if -800 <= k <= K_HI - 40]
     return _ANCHORS
 
 
-def _random_dataset(rng, i):
+def _random_subset(rng, times, allow_empty):
+    """a user subset of the initialisation times (`-d`, `-tod`, `-t`, alone or combined) that removes some of them:
+    `d=YYYYMMDD,..;tod=h,..;t=unixtime,..`"""
+    for _ in range(20):
+        parts = []
+        kinds = rng.choice([["d"], ["tod"], ["t"], ["d"], ["tod"], ["d", "tod"], ["t", "tod"], ["d", "t"],
+                            ["d", "tod", "t"]])
+        for k in kinds:
+            some = rng.sample(times, rng.randint(1, min(3, len(times))))
+            if k == "d":
+                ds = sorted(set(ymd(t // 86400) for t in some) | ({19991231} if rng.random() < 0.3 else set()))
+                parts.append("d=" + ",".join(str(d) for d in ds))
+            elif k == "tod":
+                hs = sorted(set((t % 86400) // 3600 for t in some) | ({rng.randint(0, 23)} if rng.random() < 0.3
+                                                                       else set()))
+                parts.append("tod=" + ",".join(str(h) for h in hs))
+            else:
+                ts = sorted(set(some) | ({times[0] + 1} if rng.random() < 0.3 else set()))
+                parts.append("t=" + ",".join(str(t) for t in ts))
+        sub = ";".join(parts)
+        kept = [t for t in times if _survives(t, _parse_subset(sub))]
+        by_t = [t for t in times if _survives(t, {"t": _parse_subset(sub).get("t")})]
+        if not by_t:
+            continue                # `-t` leaving nothing is an error exit (C03's subject)
+        if kept or (allow_empty and rng.random() < 0.5):
+            return sub
+    return "-"
+
+
+def _random_dataset(rng, i, cli=False):
     anchor = rng.choice(_anchors())
     T = rng.randint(1, 6)
     how = rng.choice(["mem", "mem", "memrev", "text", "textdate"])
+    if cli:
+        how = rng.choice(["text", "textdate"])
     times = set()
     while len(times) < T:
         k = anchor + rng.choice([-8, -7, -3, -2, -1, 0, 0, 1, 2, 6, 7, 8, 30, 31, 365, 366])
-        k = max(0, min(K_HI, k))
+        k = max(K_LO, min(K_HI, k))
         if how == "textdate" or rng.random() < 0.8:
             s = 3600 * rng.choice([0, 0, 6, 12, 18, 23, rng.randint(0, 23)])
         else:
@@ -335,8 +446,40 @@ def _random_dataset(rng, i):
             mask[q] = 0
     elif r < 0.3:
         mask = [0] * n                     # nothing valid at all
-    return "%s %s %s %s %s" % (",".join(str(t) for t in times), ",".join(xr(l) for l in leads),
-                               ";".join(locs), "".join(str(b) for b in mask), how)
+    ds = "%s %s %s %s %s" % (",".join(str(t) for t in times), ",".join(xr(l) for l in leads),
+                             ";".join(locs), "".join(str(b) for b in mask), how)
+    # a user subset of the init times in a fifth of the datasets (a third on the command line)
+    sub = "-"
+    if rng.random() < (0.34 if cli else 0.2):
+        sub = _random_subset(rng, times, allow_empty=not cli)
+    if cli:
+        mask2 = "-"
+        if rng.random() < 0.4:             # a second file with its own missing forecasts
+            mask2 = "".join("1" if rng.random() < 0.85 else "0" for _ in range(n))
+        return "%s %s %s" % (ds, sub, mask2)
+    return ds if sub == "-" else ds + " " + sub
+
+
+def _parse_subset(sub):
+    out = {}
+    if sub != "-":
+        for part in sub.split(";"):
+            k, v = part.split("=")
+            out[k] = [int(x) for x in v.split(",")]
+    return out
+
+
+def _survives(t, sub):
+    """does init time t (unix, whole seconds) pass the user's subset? (oracle: textbook calendar; `-tod h` keeps
+    the init times at h:00:00, the reading of C03)"""
+    k, sec = divmod(t, 86400)
+    if sub.get("d") is not None and ymd(k) not in sub["d"]:
+        return False
+    if sub.get("tod") is not None and not any(sec == 3600 * h for h in sub["tod"]):
+        return False
+    if sub.get("t") is not None and t not in sub["t"]:
+        return False
+    return True
 
 
 # ------------------------------------------------------------------ implementation side
@@ -364,6 +507,7 @@ def _conv_impl(fn, a):
 
 _DATA_CACHE = {}
 _TMP = []
+_N = [0]
 
 
 def _tmpdir():
@@ -383,20 +527,56 @@ def _parse_dataset(a):
     return times, leads, locs, mask, a[6]
 
 
+def _subset_of(a):
+    """the user subset of a slices-op (optional 8th token)"""
+    return _parse_subset(a[7]) if len(a) > 7 else {}
+
+
+def _subset_kwargs(sub):
+    kw = {}
+    if sub.get("d") is not None:
+        kw["dates"] = list(sub["d"])
+    if sub.get("tod") is not None:
+        kw["tods"] = list(sub["tod"])
+    if sub.get("t") is not None:
+        kw["times"] = [float(t) for t in sub["t"]]      # as verif.util.parse_numbers returns them
+    return kw
+
+
 def _offset(q):
     return float((7 * q) % 5 - 2) + (0.5 if q % 3 == 0 else 0.0)
 
 
-def _build_data(a):
-    """the real verif.data.Data for the dataset of a slices-op (cached per dataset)"""
-    key = " ".join(a[2:])
-    if key in _DATA_CACHE:
-        return _DATA_CACHE[key]
-    import verif.data
-    import verif.input
-    import verif.location
-    import verif.variable
-    times, leads, locs, mask, how = _parse_dataset(a)
+def _offset2(q):
+    """forecast error of the second file of a slicescli-op"""
+    return 0.25 - _offset(q)
+
+
+def _write_text(path, times, leads, locs, obs, fcst, how):
+    T, L, S = len(times), len(leads), len(locs)
+    rows = []
+    for t in range(T):
+        for l in range(L):
+            for s in range(S):
+                q = (t * L + l) * S + s
+                o = "-999" if np.isnan(obs[t, l, s]) else repr(float(obs[t, l, s]))
+                f = "-999" if np.isnan(fcst[t, l, s]) else repr(float(fcst[t, l, s]))
+                loc = "%d %r %r %r" % (locs[s][0], locs[s][1], locs[s][2], locs[s][3])
+                if how == "textdate":
+                    tcol = "%d %d" % (ymd(times[t] // 86400), (times[t] % 86400) // 3600)
+                else:
+                    tcol = "%d" % times[t]
+                rows.append(((q * 7919) % 1009, "%s %r %s %s %s" % (tcol, leads[l], loc, o, f)))
+    rows.sort()   # file order is irrelevant (deterministic shuffle)
+    with open(path, "w") as f:
+        f.write("# variable: x\n# units: u\n")
+        f.write(("date hour" if how == "textdate" else "unixtime") +
+                " leadtime location lat lon elev obs fcst\n")
+        for _, r in rows:
+            f.write(r + "\n")
+
+
+def _arrays(times, leads, locs, mask):
     T, L, S = len(times), len(leads), len(locs)
     obs = np.zeros([T, L, S])
     fcst = np.zeros([T, L, S])
@@ -411,6 +591,21 @@ def _build_data(a):
                         obs[t, l, s] = np.nan
                     else:
                         fcst[t, l, s] = np.nan
+    return obs, fcst
+
+
+def _build_data(a):
+    """the real verif.data.Data for the dataset of a slices-op (cached per dataset)"""
+    key = " ".join(a[2:])
+    if key in _DATA_CACHE:
+        return _DATA_CACHE[key]
+    import verif.data
+    import verif.input
+    import verif.location
+    import verif.variable
+    times, leads, locs, mask, how = _parse_dataset(a)
+    T, L, S = len(times), len(leads), len(locs)
+    obs, fcst = _arrays(times, leads, locs, mask)
     if how in ("mem", "memrev"):
         class MemInput(verif.input.Input):
             pass
@@ -433,29 +628,11 @@ def _build_data(a):
         inp.other_fields = []
         inp.variable = verif.variable.Variable("x", "u")
     else:
-        path = os.path.join(_tmpdir(), "d%d.txt" % len(_DATA_CACHE))
-        rows = []
-        for t in range(T):
-            for l in range(L):
-                for s in range(S):
-                    q = (t * L + l) * S + s
-                    o = "-999" if np.isnan(obs[t, l, s]) else repr(float(obs[t, l, s]))
-                    f = "-999" if np.isnan(fcst[t, l, s]) else repr(float(fcst[t, l, s]))
-                    loc = "%d %r %r %r" % (locs[s][0], locs[s][1], locs[s][2], locs[s][3])
-                    if how == "textdate":
-                        tcol = "%d %d" % (ymd(times[t] // 86400), (times[t] % 86400) // 3600)
-                    else:
-                        tcol = "%d" % times[t]
-                    rows.append(((q * 7919) % 1009, "%s %r %s %s %s" % (tcol, leads[l], loc, o, f)))
-        rows.sort()   # file order is irrelevant (deterministic shuffle)
-        with open(path, "w") as f:
-            f.write("# variable: x\n# units: u\n")
-            f.write(("date hour" if how == "textdate" else "unixtime") +
-                    " leadtime location lat lon elev obs fcst\n")
-            for _, r in rows:
-                f.write(r + "\n")
+        _N[0] += 1
+        path = os.path.join(_tmpdir(), "d%d.txt" % _N[0])
+        _write_text(path, times, leads, locs, obs, fcst, how)
         inp = verif.input.Text(path)
-    data = verif.data.Data([inp])
+    data = verif.data.Data([inp], **_subset_kwargs(_subset_of(a)))
     if len(_DATA_CACHE) > 50:
         _DATA_CACHE.clear()
     _DATA_CACHE[key] = data
@@ -503,7 +680,105 @@ def impl(op):
             else:
                 sl.append(",".join(xr(x) for x in obs))
         return _fmt(list(labels)) + "|" + ";".join(sl)
+    if a[0] == "genbucket":
+        ax = _axis(a[1])
+        if a[1] == "timeofday":
+            return _fmt(ax.compute_from_times(np.array([int(t) for t in a[2].split(",")], int)))
+        return _fmt(ax.compute_from_leadtimes(np.array([from_xr(l) for l in a[2].split(",")], float)))
+    if a[0] == "slicescli":
+        return _cli_reply(_cli_run(a, a[1]))
     raise ValueError(op)
+
+
+# ------------------------------------------------------------------ the command line
+_CLI_FILES = {}
+_CLI_MEMO = {}
+_ANSI = "\x1b["
+
+
+def _cli_files(a):
+    """the text file(s) of a slicescli-op: slicescli <axis> <metric> <times> <leads> <locs> <mask> <how> <sub> <mask2>"""
+    key = " ".join(a[3:8] + [a[9]])
+    if key in _CLI_FILES:
+        return _CLI_FILES[key]
+    times, leads, locs, mask, how = _parse_dataset(a[1:])
+    obs, fcst = _arrays(times, leads, locs, mask)
+    _N[0] += 1
+    paths = [os.path.join(_tmpdir(), "c%da.txt" % _N[0])]
+    _write_text(paths[0], times, leads, locs, obs, fcst, how)
+    if a[9] != "-":
+        T, L, S = len(times), len(leads), len(locs)
+        fcst2 = np.zeros([T, L, S])
+        for t in range(T):
+            for l in range(L):
+                for s in range(S):
+                    q = (t * L + l) * S + s
+                    fcst2[t, l, s] = q + _offset2(q) if a[9][q] == "1" else np.nan
+        paths.append(os.path.join(_tmpdir(), "c%db.txt" % _N[0]))
+        _write_text(paths[1], times, leads, locs, obs, fcst2, how)
+    if len(_CLI_FILES) > 50:
+        _CLI_FILES.clear()
+    _CLI_FILES[key] = paths
+    return paths
+
+
+def _cli_argv(a, axis):
+    argv = ["verif"] + _cli_files(a)
+    argv += ["-m", "obs", "-agg", "count"] if a[2] == "count" else ["-m", "mae"]
+    argv += ["-x", axis, "-type", "csv"]
+    sub = _parse_subset(a[8])
+    for k, flag in (("d", "-d"), ("tod", "-tod"), ("t", "-t")):
+        if sub.get(k) is not None:
+            argv += [flag, ",".join(str(x) for x in sub[k])]
+    return argv
+
+
+def _cli_run(a, axis):
+    """run the real command line in-process; -> (status, number of rows, one score column per file) with the scores
+    as the csv shows them (strings)"""
+    import contextlib
+    import io
+    import warnings
+    import verif.driver
+    argv = _cli_argv(a, axis)
+    key = " ".join(argv[1:])
+    if key in _CLI_MEMO:
+        return _CLI_MEMO[key]
+    buf = io.StringIO()
+    status = "ok"
+    try:
+        with contextlib.redirect_stdout(buf), contextlib.redirect_stderr(io.StringIO()), \
+                np.errstate(all="ignore"), warnings.catch_warnings():
+            warnings.simplefilter("ignore")
+            verif.driver.run(argv)
+    except SystemExit:
+        status = "ERR"
+    lines = [l for l in buf.getvalue().split("\n") if l.strip() and not l.startswith(_ANSI)]
+    nf = len(_cli_files(a))
+    cols = [[] for _ in range(nf)]
+    if status == "ok":
+        if not lines or len(lines[0].split(",")) <= nf:
+            status = "BADCSV"
+        else:
+            for l in lines[1:]:
+                c = l.split(",")
+                if len(c) != len(lines[0].split(",")):
+                    status = "BADCSV"
+                    break
+                for f in range(nf):
+                    cols[f].append(c[len(c) - nf + f])
+    res = (status, max(0, len(lines) - 1), cols)
+    if len(_CLI_MEMO) > 400:
+        _CLI_MEMO.clear()
+    _CLI_MEMO[key] = res
+    return res
+
+
+def _cli_reply(res):
+    status, nrows, cols = res
+    if status != "ok":
+        return status
+    return "%d|%s" % (nrows, "|".join(",".join(xr(float(v)) for v in c) if c else "-" for c in cols))
 
 
 def cmp(op, impl_out, model_out):
@@ -511,6 +786,11 @@ def cmp(op, impl_out, model_out):
     if (a[0] in ("bucket", "slices") and a[1] == "timeofday") or \
             (a[0] == "conv" and a[1] == "unixtime_to_datenum"):
         return tokens_close(impl_out.replace("|", ";"), model_out.replace("|", ";"))
+    if a[0] == "genbucket" and a[1] == "timeofday":
+        return tokens_close(impl_out, model_out)
+    if a[0] == "slicescli" and a[2] == "mae":
+        # the csv shows 6 significant digits
+        return tokens_close(impl_out.replace("|", ";"), model_out.replace("|", ";"), 1e-5, 0)
     return impl_out == model_out
 
 
@@ -584,6 +864,18 @@ def judge(op, impl_out, spec_out):
         return None
     if a[0] == "slices":
         return _judge_slices(a, impl_out)
+    if a[0] == "slicescli":
+        return _judge_cli(a, impl_out)
+    if a[0] == "genbucket":
+        args = a[2].split(",")
+        if a[1] == "timeofday":
+            want = [expected_bucket(a[1], int(t)) for t in args]
+        else:
+            want = [expected_lead(a[1], from_xr(l)) for l in args]
+        i = _first_diff(impl_out.split(","), want, close=(a[1] == "timeofday"))
+        if i is not None:
+            return ({"kind": "bucket", "axis": a[1]}, "axis %s: input %s is put in bucket %s, expected %s" %
+                    (a[1], args[i], impl_out.split(",")[i], xr(want[i])))
     return None
 
 
@@ -609,11 +901,18 @@ def _judge_slices(a, impl_out):
     times, leads, locs, mask, how = _parse_dataset(a)
     T, L, S = len(times), len(leads), len(locs)
     n = T * L * S
+    # the cases that survive the user's subset of the init times (-d / -tod / -t), by the textbook calendar
+    sub = _subset_of(a)
+    kept_t = [t for t in range(T) if _survives(times[t], sub)]
+    alive = [q for q in range(n) if q // (L * S) in kept_t]
+    if sub:
+        sig["subset"] = "+".join(sorted(sub))
+    mask = [mask[q] and (q // (L * S) in kept_t) for q in range(n)]
     valid = [q for q in range(n) if mask[q]]
     labels_s, slices_s = impl_out.split("|")
     labels = [] if labels_s == "-" else labels_s.split(",")
     slices = []
-    for s in slices_s.split(";"):
+    for s in (slices_s.split(";") if slices_s else []):
         slices.append([] if s == "nan" else [int(x) for x in s.split(",")])
     if len(labels) != len(slices):
         return (sig, "axis %s: %d labels but %d slices" % (axname, len(labels), len(slices)))
@@ -626,6 +925,11 @@ def _judge_slices(a, impl_out):
             seen[q] = j
     missing = [q for q in valid if q not in seen]
     extra = [q for q in seen if not mask[q]]
+    dropped = [q for q in seen if q not in alive]
+    if dropped:
+        q = dropped[0]
+        return (sig, "axis %s: case %d (time %d) is in slice %d although the subset %s removes its init time" %
+                (axname, q, times[q // (L * S)], seen[q], a[7]))
     if missing:
         q = missing[0]
         return (sig, "axis %s: valid case %d (time %d, leadtime %s, location %s) is in no slice" %
@@ -647,14 +951,16 @@ def _judge_slices(a, impl_out):
                 return (sig, "axis %s: slice %d is labelled %s but holds bucket %s" %
                         (axname, j, labels[j], xr(b[1])))
     if axname in TIME_AXES or axname in ("leadtime", "leadtimeday"):
-        want = sorted(set(_bucket_of_case(axname, q, times, leads, locs)[1] for q in range(n)))
+        # calendar buckets of the surviving init times; lead-time buckets do not depend on the init times
+        want = sorted(set(_bucket_of_case(axname, q, times, leads, locs)[1]
+                          for q in (alive if axname in TIME_AXES else range(n))))
         if len(want) != len(labels) or any(not num_close(from_xr(g), float(w), 1e-12, 0)
                                            for g, w in zip(labels, want)):
             return (sig, "axis %s: labels %s, expected the distinct buckets %s" %
                     (axname, labels_s, ",".join(xr(w) for w in want)))
     elif axname == "time":
-        if labels != [str(t) for t in times]:
-            return (sig, "axis time: labels %s, expected %s" % (labels_s, times))
+        if labels != [str(times[t]) for t in kept_t]:
+            return (sig, "axis time: labels %s, expected %s" % (labels_s, [times[t] for t in kept_t]))
     elif axname in ("location", "lat", "lon", "elev"):
         col = {"location": 0, "lat": 1, "lon": 2, "elev": 3}[axname]
         want = [xr(l[col]) for l in locs]
@@ -694,10 +1000,95 @@ def _judge_slices(a, impl_out):
     return None
 
 
+def _judge_cli(a, impl_out):
+    """`verif f [g] -m obs -agg count | -m mae -x <axis> -type csv`: the rows are the documented buckets of the cases
+    that survive the subset, every row's count / score is the one of exactly its cases (recomputed here in exact
+    arithmetic from the definition of the files), the count column adds up to the pooled count and the count-weighted
+    mean of the row scores is the pooled score that the same command prints for `-x no`"""
+    axname, metric = a[1], a[2]
+    sig = {"kind": "cli", "axis": axname, "metric": metric}
+    times, leads, locs, mask, how = _parse_dataset(a[1:])
+    sub, mask2 = _parse_subset(a[8]), a[9]
+    if sub:
+        sig["subset"] = "+".join(sorted(sub))
+    T, L, S = len(times), len(leads), len(locs)
+    n = T * L * S
+    nf = 1 if mask2 == "-" else 2
+    kept_t = [t for t in range(T) if _survives(times[t], sub)]
+    alive = [q for q in range(n) if q // (L * S) in kept_t]
+    if metric == "count":
+        ok = [mask[q] or q % 2 == 1 for q in range(n)]                 # the observation is there
+    else:
+        ok = [mask[q] and (mask2 == "-" or mask2[q] == "1") for q in range(n)]   # obs and every forecast are there
+    cmdline = " ".join(_cli_argv(a, axname)[3 if nf == 2 else 2:])
+    parts = impl_out.split("|")
+    if len(parts) != nf + 1:
+        return (sig, "%s: %d score columns for %d files" % (cmdline, len(parts) - 1, nf))
+    # rows = documented buckets of the surviving cases
+    if axname == "time":
+        keys = [("t", t) for t in kept_t]
+    elif axname in ("location", "lat", "lon", "elev"):
+        keys = [("s", j) for j in range(S)]
+    elif axname == "no":
+        keys = [("all", 0)]
+    else:
+        keys = [("v", v) for v in sorted(set(_bucket_of_case(axname, q, times, leads, locs)[1]
+                                             for q in (alive if axname in TIME_AXES else range(n))))]
+    groups = dict((k, []) for k in keys)
+    for q in alive:
+        if ok[q]:
+            groups[_bucket_of_case(axname, q, times, leads, locs)].append(q)
+    if int(parts[0]) != len(keys):
+        return (sig, "%s: %d rows, expected %d (%s)" % (cmdline, int(parts[0]), len(keys),
+                                                        ",".join(xr(k[1]) for k in keys)))
+    pooled = _cli_run(a, "no")
+    npool = sum(len(groups[k]) for k in keys)
+    for f in range(nf):
+        got = [] if parts[1 + f] == "-" else [from_xr(x) for x in parts[1 + f].split(",")]
+        if len(got) != len(keys):
+            return (sig, "%s: column %d has %d values for %d rows" % (cmdline, f, len(got), len(keys)))
+        if metric == "count":
+            want = [len(groups[k]) for k in keys]
+            for j, (g, w) in enumerate(zip(got, want)):
+                if g != w:
+                    return (sig, "%s: row %d (%s) shows count %s, %d valid cases fall in that bucket" %
+                            (cmdline, j, xr(keys[j][1]), xr(g), w))
+            if pooled[0] != "ok" or len(pooled[2][f]) != 1 or float(pooled[2][f][0]) != sum(got):
+                return (sig, "%s: the count column adds up to %s, -x no shows %s" %
+                        (cmdline, xr(sum(got)), pooled[2][f] if pooled[0] == "ok" else pooled[0]))
+            if sum(got) != npool:
+                return (sig, "%s: the count column adds up to %s, %d valid cases survive" % (cmdline, xr(sum(got)), npool))
+        else:
+            err = (lambda q: abs(Fraction(_offset(q)))) if f == 0 else (lambda q: abs(Fraction(_offset2(q))))
+            tot = Fraction(0)
+            for j, k in enumerate(keys):
+                qs = groups[k]
+                if not qs:
+                    if not math.isnan(got[j]):
+                        return (sig, "%s: row %d has no valid case but shows %s" % (cmdline, j, xr(got[j])))
+                    continue
+                want = sum(err(q) for q in qs) / len(qs)
+                if math.isnan(got[j]) or abs(Fraction(got[j]) - want) > Fraction(6, 10 ** 6) * want + Fraction(1, 10 ** 12):
+                    return (sig, "%s: row %d (%s) shows MAE %s, the mean absolute error of its %d cases is %s" %
+                            (cmdline, j, xr(keys[j][1]), xr(got[j]), len(qs), want))
+                tot += len(qs) * Fraction(got[j])
+            if npool:
+                if pooled[0] != "ok" or len(pooled[2][f]) != 1:
+                    return (sig, "%s: -x no gives %s" % (cmdline, pooled[0]))
+                p = Fraction(float(pooled[2][f][0])) if not math.isnan(float(pooled[2][f][0])) else None
+                wm = tot / npool
+                if p is None or abs(wm - p) > Fraction(12, 10 ** 6) * p + Fraction(1, 10 ** 12):
+                    return (sig, "%s: count-weighted mean of the row scores = %s, -x no shows %s" %
+                            (cmdline, float(wm), pooled[2][f][0]))
+    return None
+
+
 def nontrivial(op, out):
     a = op.split(" ")
     if a[0] == "slices":
         return out.count(";") >= 1 and "," in out
+    if a[0] == "slicescli":
+        return out.split("|")[0] not in ("0", "1", "ERR", "BADCSV")
     return len(set(out.split(","))) >= 2
 
 
@@ -712,9 +1103,20 @@ def shrink(op):
 def extra_evidence(rows):
     axes = {}
     how = {}
+    subs = {}
+    cli = {}
     for r in rows:
         a = r["op"].split(" ")
         if a[0] == "slices":
             axes[a[1]] = axes.get(a[1], 0) + 1
-            how[a[-1]] = how.get(a[-1], 0) + 1
-    return {"slices_per_axis": axes, "dataset_construction": how}
+            how[a[6]] = how.get(a[6], 0) + 1
+            if len(a) > 7:
+                k = "+".join(sorted(_parse_subset(a[7])))
+                subs[(k, a[1] in TIME_AXES)] = subs.get((k, a[1] in TIME_AXES), 0) + 1
+        if a[0] == "slicescli":
+            k = "+".join(sorted(_parse_subset(a[8]))) or "none"
+            cli[(a[2], k, "2 files" if a[9] != "-" else "1 file")] = cli.get((a[2], k, "2 files" if a[9] != "-" else "1 file"), 0) + 1
+    return {"slices_per_axis": axes, "dataset_construction": how,
+            "slices_with_subset": {"%s on %s axis" % (k, "calendar" if c else "other"): v
+                                   for (k, c), v in sorted(subs.items())},
+            "cli_ops": {" / ".join(k): v for k, v in sorted(cli.items())}}
